@@ -44,6 +44,7 @@ fn expected(t: &Ty, input: &[u8]) -> (String, String) {
 
 pub fn check(o: &mut Out, t: &Ty, ts: &str, input: &[u8], class: &str, model: bool, flip: bool) {
     let (exp_take, exp_from) = expected(t, input);
+    o.inflight(&format!("take_from_bytes_cobs / from_bytes_cobs as {} bytes {}", ts, hex(input)));
     // take_from_bytes_cobs, buffer flush against a guard page
     let mut g = GuardBuf::from_bytes(input, flip);
     let got = guarded(|| {
